@@ -15,6 +15,7 @@ import numpy
 
 from common import Check, Driver, Infra, VERIF, sarpy_guard
 import segtree
+import c01complete
 
 sys.path.insert(0, os.path.join(VERIF, 'translate'))
 
@@ -25,6 +26,13 @@ REQUIRED = [
     # N-d subscripts (Props/C01Nd.lean)
     'expand_length', 'expand_refused_iff', 'expand_layout', 'expand_no_ellipsis', 'verify_item_sound', 'verify_sub_sound',
     'read_eq_numpy', 'read_shape', 'read_in_bounds',
+    # completeness of the subscript gate (Props/C01Complete.lean)
+    'verify_slice_accepts_iff', 'verify_slice_refuses_iff', 'verify_slice_refuses_iff\'', 'verify_slice_total_on_supported',
+    'verify_int_accepts_iff', 'verify_int_refuses_iff', 'verify_item_accepts_iff', 'verify_axes_accepts_iff',
+    'verify_sub_accepts_iff', 'verify_sub_accepts_iff_expand', 'verify_sub_refuses_iff', 'verify_sub_accepts_pos',
+    'supported_pos', 'supported_full_iff',
+    'gen_verify_slice_accepts_iff', 'gen_verify_slice_raises_iff', 'gen_verify_int_accepts_iff', 'gen_verify_int_raises_iff',
+    'gen_verify_none', 'gen_verify_none_accepts_iff', 'gen_verify_item_raises_iff', 'gen_verify_slice_total_on_supported',
 ]
 
 
@@ -606,7 +614,7 @@ def run(tier):
     gen_info = gen_slices.generate(os.path.join(VERIF, 'lean', 'SarpyModel', 'Gen', 'Slices.lean'))
     if gen_info['unsupported']:
         gen_info['note'] = 'translator could not express: ' + json.dumps(gen_info['unsupported'])
-    broken = chk.prove(['SarpyModel.Props.C01', 'SarpyModel.Props.C01Nd', 'SarpyModel.Drivers'], 'SarpyModel.Props.C01Nd', 'Sarpy.Props.C01', REQUIRED, gen_info)
+    broken = chk.prove(['SarpyModel.Props.C01', 'SarpyModel.Props.C01Nd', 'SarpyModel.Props.C01Complete', 'SarpyModel.Drivers'], 'SarpyModel.Props.C01Complete', 'Sarpy.Props.C01', REQUIRED, gen_info)
 
     # ---- correspondence: kernels three-way (python / Gen / Spec) and numpy-spec validation
     disagreements = []
@@ -620,6 +628,8 @@ def run(tier):
         npq = np_validation(rng, tier, drv)
         ndc = nd_cases(rng, tier)
         ndq = [drv.ask(nd_line(c)) for c in ndc]
+        ccs = c01complete.supported_oracle_cases(rng, tier)
+        ccq = c01complete.enqueue(drv, ccs)
         ans = drv.run()
     except Infra as e:
         drv_ok = False
@@ -675,6 +685,11 @@ def run(tier):
             if rd is None or rd[1] != mflat:
                 oracle_fail.append({'kind': 'nd', 'case': c, 'msg': f'segment read of subscript {nd_line(c)[10:]} on shape {c[0]} returns {rd}, numpy selects offsets {mflat[:12]}'})
         chk.coverage['nd_subscripts'] = nd_stats
+        cres = c01complete.check(ccs, ccq, ans)
+        disagreements += cres['disagreements']
+        oracle_fail += cres['oracle_fail']
+        evaluations += cres['evaluations']
+        chk.coverage['completeness'] = cres['stats']
     # kernel oracles on the implementation (always run: they are cheap and they are the search when something broke)
     for c in cases:
         m = kernel_oracle(c)
@@ -793,6 +808,10 @@ def exhaustive_small(fails, stats, tmpdir):
 
 def replay(path):
     case = json.load(open(path))['case']
+    if case['kind'] == 'complete':
+        m = c01complete.replay_case(case['case'])
+        print('completeness oracle:', m)
+        return 1 if m else 0
     if case['kind'] == 'kernel':
         m = kernel_oracle(tuple(tuple(x) if isinstance(x, list) else x for x in case['case']))
         print('kernel oracle:', m)
